@@ -16,6 +16,7 @@
 #include <exception>
 #include <fstream>
 #include <iostream>
+#include <unordered_set>
 
 #include "exec.hpp"
 #include "gen.hpp"
@@ -228,6 +229,7 @@ int main(int argc, char** argv) {
   if (cmd != "run") return 2;
   globals().verbose = verbose;
   Stats total;
+  std::unordered_set<uint64_t> states;
   long violations = 0;
   int samples_left = samples;
 #ifdef SIM_ASAN
@@ -255,6 +257,7 @@ int main(int argc, char** argv) {
       fph = fnv1a(0xcbf29ce484222325ULL, fp.data(), fp.size());
       for (int i = 0; i < kNProps; ++i) if (ex.nontrivial_for(kProps[i]) > 0) mask |= 1u << i;
       total.add(ex.stats());
+      for (uint64_t h : ex.state_hashes()) states.insert(h);
       if (ex.failed()) {
         failed = true;
         ++violations;
@@ -263,6 +266,7 @@ int main(int argc, char** argv) {
         write_replay(path, p, &v, lh, "simH");
         std::printf("V %llu %s %s %s | %s\n", s, v.props.c_str(), v.oracle.c_str(), path.c_str(), one_line(v.text).c_str());
         std::printf("R %llu %016llx %016llx %x %zu\n", s, static_cast<unsigned long long>(lh), static_cast<unsigned long long>(fph), mask, nops);
+        std::printf("STATES %zu\n", states.size());
         std::printf("STATS %s\n", total.to_json().c_str());
         std::fflush(stdout);
         // after a violation the real world is not trustworthy: do not run its destructors; the driver restarts us
@@ -284,6 +288,7 @@ int main(int argc, char** argv) {
 #ifdef SIM_ASAN
   if (__lsan_do_recoverable_leak_check()) std::printf("L %llu %llu leak(s) reported by LeakSanitizer in this batch\n", base, base + count - 1);
 #endif
+  std::printf("STATES %zu\n", states.size());
   std::printf("STATS %s\n", total.to_json().c_str());
   std::fflush(stdout);
   return violations ? 1 : 0;
